@@ -4,5 +4,5 @@ From FB Require Import Sem.Base Sem.ReadBuf Model.Fb Model.Tokio GenEq.Tac.
 From FB Require Gen.TokioGen.
 Open Scope Z_scope.
 
-Lemma gen_eq : forall chk buf s, TokioGen.afb_poll_read chk buf s = Tokio.afb_poll_read chk buf s.
+Lemma gen_eq : forall chk buf s, rb_wf buf -> TokioGen.afb_poll_read chk buf s = Tokio.afb_poll_read chk buf s.
 Proof. gen_eq. Qed.
